@@ -163,6 +163,11 @@ impl Ctx {
         self.bytes_keys.len()
     }
 
+    /// number of abstract keys a step may name (the selection, if one is installed)
+    pub fn key_space(&self) -> usize {
+        self.key_sel.as_ref().map_or(self.bytes_keys.len(), |s| s.len())
+    }
+
     /// Serialized form (as redb's `Value::as_bytes` produces it) of key `i` of type `kt`
     pub fn key_bytes(&self, kt: &str, i: u32) -> Vec<u8> {
         let i = self.kmap(i);
